@@ -187,7 +187,7 @@ def nearby(rng, t, d):
             return int(x)
     if isinstance(d, bool):
         return int(d)
-    if isinstance(d, int) and rng.random() < 0.5:
+    if isinstance(d, int) and abs(d) < 2 ** 53 and rng.random() < 0.5:    # beyond 2**53 repr-decimal identification is inexact
         return {"$f": repr(float(d))} if rng.random() < 0.6 else (d == 1 if d in (0, 1) else d)
     if isinstance(d, dict) and "$d" in d and d["$d"]:
         items = [list(x) for x in d["$d"]]
